@@ -244,6 +244,19 @@ Section Step.
 
   Ltac side2 := solve [dwfs | autorewrite with ddim; rewrite ?Lp, ?Lq, ?Hm, ?Hn, ?rm, ?rn; (lia || reflexivity)].
 
+  Lemma step_dims :
+    dr (step_f1 o n r vq) = n - r /\ dc (step_f1 o n r vq) = n /\
+    dr (step_b1 o n r vq sc) = n /\ dc (step_b1 o n r vq sc) = n - r /\
+    dr (step_f2 o m r vp sc) = m - r /\ dc (step_f2 o m r vp sc) = m /\
+    dr (step_b2 o m r vp) = m /\ dc (step_b2 o m r vp) = m - r /\
+    dr (step_h o m n r vp vq sc) = n /\ dc (step_h o m n r vp vq sc) = m /\
+    dr (sc_s sc) = m - r /\ dc (sc_s sc) = n - r /\ dwf (sc_s sc) /\ r <= m /\ r <= n.
+  Proof.
+    destruct sc_unfold as (E1 & E2 & _).
+    rewrite f1_eq, b1_eq, f2_eq, b2_eq, h_eq, s_eq. autorewrite with ddim. rewrite ?Lp, ?Lq.
+    subst mr nr. repeat match goal with |- _ /\ _ => split end; try lia. dwfs.
+  Qed.
+
   (* ---------- identities that involve a1 only ---------- *)
   Theorem step_f_chain : dmul o (step_f2 o m r vp sc) a1 = dmul o (sc_s sc) (step_f1 o n r vq).
   Proof.
